@@ -84,7 +84,7 @@ def plan(plan, tier, seed):
     plan.dropped += [vC17.__doc__.strip()]
     plan.trusted += ["Verus 0.2026.09.13 / Z3"]
     plan.assumptions += [
-        "clear_pattern_bindings, pattern_matches_value, pattern_to_value, apply_transitions are arbitrary (uninterpreted) functions of (pattern / transitions, state, environment); their effects on the interpreter's global state are not modelled, so 'no other transition is applied' is decided only as far as it shows in the state, the environment or the result",
+        "clear_pattern_bindings, pattern_matches_value (its arms: C16.verus.pattern_matches_value.*), pattern_to_value (its tuple arms: C17.verus.pattern_to_value.*), apply_transitions are arbitrary (uninterpreted) functions of (pattern / transitions, state, environment); their effects on the interpreter's global state are not modelled, so 'no other transition is applied' is decided only as far as it shows in the state, the environment or the result",
         "syntax-tree nodes are opaque identities; MResult errors are `None`; trace_println! statements are removed",
         "termination: the outer loop is `for step in 0..p.max_steps`, each inner loop ranges over a finite list (Verus checks the for-loops' implicit measures); evaluators are assumed to return",
     ]
